@@ -6,7 +6,7 @@
 (* verdict of every event is total: a set of failing clause names (empty = *)
 (* accepted) printed as <<"V", id, clauses>>.                              *)
 (***************************************************************************)
-EXTENDS Json, IOUtils, TLC, JSearch, JArrays, JProcess
+EXTENDS Json, IOUtils, TLC, JSearch, JArrays, JProcess, JRfa
 
 Trace == JsonDeserialize(IOEnv.TRACE_FILE)
 Chunk == atoi(IOEnv.TRACE_CHUNK)
@@ -41,6 +41,9 @@ Verdict(e) ==
       [] e.fn = "interp" -> V_interp(e)
       [] e.fn = "interp_env" -> V_interp_env(e)
       [] e.fn = "winterp" -> V_winterp(e)
+      [] e.fn = "rfa" -> V_rfa(e)
+      [] e.fn = "rfa_reject" -> V_rfa_reject(e)
+      [] e.fn = "funfit" -> V_funfit(e)
       [] OTHER -> {"machinery.unknown_fn"}
 
 Judge == l > 0 => PrintT(<<"V", Trace[l].id, Verdict(Trace[l])>>)
